@@ -8,7 +8,7 @@
    The SQL decoder is the one WITH fixes/C07-sql-timestamp-varlong.patch; the unpatched
    one ([decode_sql_orig]) is refuted below. *)
 From Coq Require Import Sorted.
-From KS Require Import lib.Base lib.Varint lib.Outcome lib.Kafka model.Decoders proofs.DecodersProofs proofs.DecodersRoundtrip proofs.DecodersIndex.
+From KS Require Import lib.Base lib.Varint lib.Outcome lib.Kafka model.Decoders proofs.DecodersProofs proofs.DecodersRoundtrip proofs.DecodersIndex proofs.DecodersPitr.
 Open Scope Z_scope.
 
 (* The real writer (BuildSegment over NewRecordBatchFromBytes of each batch) succeeds and
@@ -65,6 +65,29 @@ Theorem C07_pitr_scan_roundtrip : forall rs rest, Forall record_wf rs ->
 Proof. exact c07_scan. Qed.
 Print Assumptions C07_pitr_scan_roundtrip.
 
+(* The restore scanner's contract (model of collectRecoverableBatches), for EVERY segment of
+   well-formed header-consistent batches ([pitr_wf]: batch_wf, record 0 at firstTimestamp,
+   maxTimestamp = the true maximum, non-negative offset deltas / lastOffsetDelta), every
+   cut-off and every CRC function:
+   (a) the scanner returns exactly the encodings of [collect_spec bs cutoff];
+   (b) the (offset, timestamp) pairs of the returned batches are the records of the segment in
+       scan order up to, not including, the first record whose timestamp is > cutoff;
+   (c) every returned batch is an input batch unchanged (so byte-identical: it is
+       [enc_batch crc b] again) or an input batch cut to its kept prefix - and since the
+       output is [enc_batch crc (cut_batch b p)], its batchLength, lastOffsetDelta (offset delta
+       of the last kept record), maxTimestamp (maximum over the kept records), numRecords and
+       CRC (crc of the rewritten bytes 21..) are consistent with the records it keeps and all
+       other header bytes and the kept record bytes are unchanged. *)
+Theorem C07_pitr_scan_contract : forall crc bs base count created crcv last cutoff, Forall pitr_wf bs ->
+  out (pitr_collect crc (seg_header base count created ++ enc_batches crc bs ++ seg_footer crcv last) cutoff)
+    = Ok (map (enc_batch crc) (collect_spec bs cutoff)) /\
+  concat (map recs_of (collect_spec bs cutoff)) = take_le cutoff (concat (map recs_of bs)) /\
+  Forall (fun k => exists b, In b bs /\
+            (k = b \/ k = cut_batch b (kept_prefix (kb_first_ts b) cutoff (kb_records b))))
+         (collect_spec bs cutoff).
+Proof. exact c07_pitr_contract. Qed.
+Print Assumptions C07_pitr_scan_contract.
+
 (* the skeleton processor's decoder is a documented placeholder: it returns no batches and
    never fails (the decode-equality clause is not claimed for it, DESIGN 9.2) *)
 Theorem C07_skeleton_returns_nothing : forall seg, decode_skeleton seg = ret [].
@@ -100,6 +123,26 @@ Ltac wf_by_computation :=
   unfold batch_wf, record_wf, header_wf, in_signed, is_byte, bytes_ok, obytes_ok, olen;
   repeat (first [split | apply Forall_cons | apply Forall_nil]);
   vm_compute; try reflexivity; try (let Hc := fresh "Hc" in intro Hc; discriminate Hc); try exact I.
+
+(* non-vacuity of the scanner contract: batch A kept whole, batch B cut after its first
+   record, batch C (entirely before the cut-off) dropped because the scan stopped in B *)
+Definition pbA : kbatch := mkKBatch 0 0 0 1 100 150 (-1) (-1) (-1) [rec0 0 0; rec0 50 1].
+Definition pbB : kbatch := mkKBatch 2 0 0 1 120 160 (-1) (-1) (-1) [rec0 0 0; rec0 40 1].
+Definition pbC : kbatch := mkKBatch 4 0 0 0 90 90 (-1) (-1) (-1) [rec0 0 0].
+Example C07_pitr_contract_nonvacuous :
+  Forall pitr_wf [pbA; pbB; pbC] /\
+  collect_spec [pbA; pbB; pbC] 150 = [pbA; cut_batch pbB [rec0 0 0]] /\
+  concat (map recs_of (collect_spec [pbA; pbB; pbC] 150)) = [(0, 100); (1, 150); (2, 120)] /\
+  out (pitr_collect crcz (seg_header 0 5 0 ++ enc_batches crcz [pbA; pbB; pbC] ++ seg_footer 0 4) 150)
+    = Ok [enc_batch crcz pbA; enc_batch crcz (cut_batch pbB [rec0 0 0])] /\
+  collect_spec [pbA; pbB; pbC] 160 = [pbA; pbB; pbC].
+Proof.
+  split; [|vm_compute; repeat split].
+  repeat apply Forall_cons; try apply Forall_nil;
+    (split; [wf_by_computation|split; [vm_compute; split; [intro Hc; discriminate Hc|reflexivity]|
+      split; [eexists; eexists; split; reflexivity|split; [vm_compute; reflexivity|
+        repeat (first [apply Forall_cons | apply Forall_nil]); vm_compute; intro Hc; discriminate Hc]]]]).
+Qed.
 
 Example C07_nonvacuous :
   batch_wf batch30d /\
